@@ -6,6 +6,10 @@ CircuitEmitterCount, CircuitCnotCount, CircuitUnitaryCount, CircuitMeasureCount,
 CircuitMaxEmitResetDepth, CircuitMaxEmitEffDepth) and `register_depth` are evaluated on the real circuit and by the Lean
 model of the same code (`dag.metrics` for circuits built by `add`, `dag.run … qs=m` for circuits reached by arbitrary
 edit histories); integers compared exactly.
+On every history-built circuit the statement of `C18.metrics_eq_spec_on_any_schedule` / `metrics_after_history` is executed: the
+operation nodes in the implementation's topological order, with their operations as wired on the model's wires, must form a schedule
+(`every_topological_order_is_a_schedule`), and the driver's `Spec.*` on that operation list must equal the model's metrics, the
+implementation's metrics and the harness' definitions.
 Direct oracle (independent of the model, of graphiq helpers and of networkx): each metric recomputed from the
 operation list `sequence()` by its definition (ASAP layering over shared registers, counting by class, per-emitter wire
 = filter of the list); also evaluated with explicit penalty functions (result must be penalty(value)) and with default
@@ -13,14 +17,15 @@ constructor arguments.  For add-built circuits the model's own op-list specifica
 the theorems of Properties/C18.lean) is compared with the oracle as well.
 """
 from harness import dagutil as du
-from harness.common import Driver, Result
+from harness.common import Driver, Result, coverage_floor, impl_guard
 
 LEVEL = "proof"
 TRUSTED_BASE = [
     "Lean 4.33 kernel",
     "hand-written models GraphiqModel/Model/{Dag,Metrics}.lean tied to circuit_dag.py / metrics.py by this correspondence run "
     "(differential testing, bounded by the generators)",
-    "networkx dag_longest_path_length = number of edges of a longest path (specification; checked on every observed value)",
+    "networkx dag_longest_path_length = number of edges of a longest path (specification; checked on every observed value); "
+    "networkx topological_sort returns a linear extension (specification; the sorted order is checked to be a schedule of the model's wires on every history input)",
     "harness, line protocol, own Python re-computation of every metric from the operation list",
 ]
 ASSUMPTIONS = [
@@ -30,7 +35,8 @@ ASSUMPTIONS = [
     "whether CZ / parameterised gates belong to the 'unitary count' is not demanded: the definition counts SigmaX, SigmaY, SigmaZ, Phase, "
     "PhaseDagger, Hadamard, CNOT after unwrapping, identities dropped (metrics.py docstring and label list)",
     "log_steps bookkeeping (log, _inc) is not part of the property",
-    "user labels (op.add_labels) do not collide with class names or register-type descriptions (the counts are label-index based)",
+    "user labels (op.add_labels) do not collide with class names or register-type descriptions (the counts are label-index based); this is "
+    "exactly the hypothesis PlainOp of the theorems (labels outside Metrics.reservedNames)",
 ]
 
 COUNTED = ["SigmaX", "SigmaY", "SigmaZ", "Phase", "PhaseDagger", "Hadamard", "CNOT"]
@@ -323,6 +329,128 @@ def check_circuit(res, circ, rng, inp, model_m, model_spec=None, before=None):
     res.traces_validated += 1
 
 
+# ------------------------------------------------------------------ the theorem's statement on history-built circuits
+def parse_model_wires(hans):
+    """answer of query `h` -> {reg: [node strings]} (None when a walk failed)"""
+    body = hans.split(":", 1)[1]
+    wires = {}
+    if body == "*":
+        return wires
+    for item in body.split("/"):
+        r, w = item.split("~", 1)
+        if w.startswith("!"):
+            return None
+        wires[r] = w.split(".")
+    return wires
+
+
+def parse_model_nodes(nodes_field):
+    """`nodes=` of the full state -> {node string: op token}"""
+    out = {}
+    if nodes_field == "*":
+        return out
+    for item in nodes_field.split(";"):
+        n, tok = item.split("~", 1)
+        out[n] = tok
+    return out
+
+
+def schedule_of(circ, wires, nodes):
+    """the schedule `schedOf c P pos` of Proofs/MetricsHist.lean for pos = the implementation's topological order: the
+    operation nodes in the order of nx.topological_sort, each with its operation AS WIRED (wiredOp: only the classical
+    registers on whose model wire the node lies).  -> [(node string, wired op token, [registers])]"""
+    import networkx as nx
+
+    L = []
+    for n in nx.topological_sort(circ.dag):
+        if isinstance(n, str):
+            continue
+        tok = nodes.get(str(n))
+        if tok is None:
+            return None
+        name, q, c, lab, inner = tok.split(":")
+        cs = [] if c == "*" else c.split(".")
+        wired = [j for j in cs if str(n) in wires.get("c" + j, [])]
+        qs = [] if q == "*" else q.split(".")
+        L.append((str(n), ":".join([name, q, du.emp(".".join(wired)), lab, inner]), qs + ["c" + j for j in wired]))
+    return L
+
+
+def is_schedule(L, wires, nodes):
+    """the predicate `Sched c P L` (Proofs/PrepDepthStatic.lean) evaluated on the model's wires: every wire is `in`, the scheduled
+    nodes acting on the register in schedule order, `out`; L lists every operation node exactly once"""
+    ids = [n for n, _, _ in L]
+    if len(set(ids)) != len(ids) or set(ids) != {n for n in nodes if n.isdigit()}:
+        return False
+    for r, w in wires.items():
+        if w != [r + "_in"] + [n for n, _, regs in L if r in regs] + [r + "_out"]:
+            return False
+    return all(all(r in wires for r in regs) for _, _, regs in L)
+
+
+RESERVED = {"Input", "Output", "Hadamard", "SigmaX", "SigmaY", "SigmaZ", "Phase", "PhaseDagger", "Identity", "RX", "RY", "RZ",
+            "ParameterizedOneQubitRotation", "OneQubitGateWrapper", "CNOT", "CZ", "ParameterizedControlledRotationQubit",
+            "ClassicalCNOT", "ClassicalCZ", "MeasurementCNOTandReset", "MeasurementZ", "Emitter", "Photonic", "Emitter-Emitter",
+            "Emitter-Photonic", "Photonic-Emitter", "Photonic-Photonic"}
+
+
+def plain_token(tok):
+    """hypothesis `AllPlain` of the theorems: no label collides with a class name or a register-type description
+    (`Metrics.reservedNames`), wrappers wrap base classes"""
+    name, q, c, lab, inner = tok.split(":")
+    labs = [] if lab == "*" else lab.split(".")
+    return all(x not in RESERVED for x in labs) and "OneQubitGateWrapper" not in inner.split(".")
+
+
+def check_theorem_on_history(res, drv, circ, inp, rep, model_m):
+    """`C18.metrics_after_history` / `metrics_eq_spec_on_any_schedule` executed on one history-built circuit: take the model's wires,
+    form the schedule of the implementation's topological order, check it IS a schedule (`every_topological_order_is_a_schedule`),
+    evaluate the model's op-list specification `Spec.*` on its operation list (driver) and compare with the model's metrics, the
+    implementation's metrics and the harness' own definitions"""
+    answers = rep["q"].split(",")[-1].split("+")
+    hans = next((a for a in answers if a.startswith("h:")), None)
+    if hans is None:
+        return
+    wires = parse_model_wires(hans)
+    nodes = parse_model_nodes(rep.get("nodes", "*"))
+    if wires is None:
+        res.exact_break("metrics.schedule:wire-walk", input=inp, impl="reg_gate_history succeeds", model=hans[:200])
+        return
+    L = schedule_of(circ, wires, nodes)
+    if L is None or not is_schedule(L, wires, nodes):
+        res.exact_break("metrics.schedule:topological-order-is-a-schedule", input=inp, impl="schedule",
+                        model=str(L)[:300], note="the operation nodes in the implementation's topological order do not form a schedule "
+                        "of the model's wires (theorem every_topological_order_is_a_schedule, or the node identities, broke)")
+        return
+    regs = [int(x) for x in rep["regs"].split(",")]
+    toks = [t for _, t, _ in L]
+    srep = drv.ask(f"dag.metrics ne={regs[0]} np={regs[1]} nc={regs[2]} ops={du.emp(','.join(toks))} lite=1")
+    if srep["_status"] != "ok":
+        res.exact_break("metrics.schedule:spec-reply", input=inp, impl="ok", model=srep["_raw"][:200])
+        return
+    res.count("branches", "history:spec-on-schedule")
+    if all(plain_token(t) for t in toks):
+        res.count("branches", "history:spec-on-schedule:hypotheses-of-the-theorem-met")
+    if any(c != "*" and c not in t.split(":")[2].split(".") for (n, t, _) in L for c in nodes[n].split(":")[2].split(".")):
+        res.count("branches", "history:spec-on-schedule:unthreaded-classical-register")
+    spec = {"depth": srep["sdepth"], "emit": srep["semit"], "cnot": srep["scnot"], "unit": srep["sunit"], "meas": srep["smeas"],
+            "med": srep["smed"], "reset": srep["sreset"], "eff": srep["seff"]}
+    ref, regd = ref_metrics(circ)
+    model = dict(kv.split(".", 1) for kv in model_m.split("/"))
+    res.evaluations += len(spec) + 1
+    for k, v in spec.items():
+        if k in model and model[k] != v:
+            res.exact_break("metrics.spec-on-schedule", input=inp, impl=f"{k}: model metric {model[k]}", model=f"{k}: Spec on the schedule {v}",
+                            note="theorem metrics_eq_spec_on_any_schedule contradicted by evaluation")
+            return
+        if str(ref[k]) != v:
+            res.exact_break("metrics.spec-on-schedule", input=inp, impl=f"{k}: definition (harness) {ref[k]}", model=f"{k}: Spec on the schedule {v}")
+            return
+    want = "/".join(du.dots(regd[t]) for t in "epc")
+    if srep["sregd"] != want:
+        res.exact_break("metrics.spec-on-schedule", input=inp, impl=f"register depth (harness) {want}", model=f"Spec.regDepth on the schedule {srep['sregd']}")
+
+
 def run(ctx):
     res = Result()
     res.rule = ("one evaluation = one metric class evaluated on one circuit (default arguments, explicit penalty, log_steps=3); non-trivial = "
@@ -339,13 +467,23 @@ def run(ctx):
             np_ = 1
         n_ops = rng.choice([0, 1, 2, 5, 10, 20, 30]) if k % 4 else rng.randrange(0, 45)
         toks = gen_ops(rng, ne, np_, nc, n_ops)
-        circ, errs = du.replay_edits(ne, np_, nc, ["A/" + t for t in toks])
+        circ, errs = None, ["?"]
+        with impl_guard(res, "build", input={"ne": ne, "np": np_, "nc": nc, "edits": ["A/" + t for t in toks]}):
+            circ, errs = du.replay_edits(ne, np_, nc, ["A/" + t for t in toks])
         if any(errs):
+            # the generated operations are valid uses of add() (none raises on the unchanged repository): a circuit that cannot be built
+            # used to be dropped silently; it is the implementation raising on a valid input (property C12 speaks of add, hence a break)
+            if circ is not None:
+                bad = next((e, t) for e, t in zip(errs, toks) if e)
+                res.count("errors", f"build:add:raises:{bad[0]}")
+                res.exact_break(f"build:add:raises:{bad[0]}", input={"ne": ne, "np": np_, "nc": nc, "edits": ["A/" + t for t in toks]},
+                                impl=f"add({bad[1]}) raised {bad[0]}", model="add accepts the operation")
             continue
         lines.append(f"dag.metrics ne={ne} np={np_} nc={nc} ops={du.emp(','.join(toks))}")
         cases.append((circ, {"ne": ne, "np": np_, "nc": nc, "edits": ["A/" + t for t in toks]}, toks))
         res.count("sizes", "ops<=5" if n_ops <= 5 else ("ops<=20" if n_ops <= 20 else "ops>20"))
     # the literal `_max_depth` recursion is exponential in the worst case: evaluate effective depth / register depth only when cheap
+    coverage_floor(res, "add-built circuits", len(cases), n_add, what="generated circuits (built without an error and evaluated)")
     cheap = [eff_cost_ok(c) and du.max_depth_cost(c, 6000) <= 6000 for c, _, _ in cases]
     res.extra["circuits_without_effective_depth"] = cheap.count(False)
     reps = drv.batch([ln + ("" if ok else " lite=1") for ln, ok in zip(lines, cheap)])
@@ -356,9 +494,13 @@ def run(ctx):
             continue
         spec = (f"depth.{rep['sdepth']}/emit.{rep['semit']}/cnot.{rep['scnot']}/unit.{rep['sunit']}/meas.{rep['smeas']}"
                 f"/med.{rep['smed']}/reset.{rep['sreset']}/eff.{rep['seff']}")
-        check_circuit(res, circ, rng, inp, rep["m"], spec)
-        # model register depth (literal recursion) and its spec
-        ref, regd = ref_metrics(circ)
+        g = impl_guard(res, "metrics", promise=True, input=inp)
+        with g:
+            check_circuit(res, circ, rng, inp, rep["m"], spec)
+            # model register depth (literal recursion) and its spec
+            ref, regd = ref_metrics(circ)
+        if g.raised is not None:
+            continue
         want = "/".join(du.dots(regd[t]) for t in "epc")
         if (cheap[i] and rep["regd"] != want) or rep["sregd"] != want:
             res.exact_break("metrics.register_depth", input=inp, impl=want, model=(rep["regd"], rep["sregd"]))
@@ -369,40 +511,11 @@ def run(ctx):
     # -- circuits reached by arbitrary edit histories
     for k in range(n_hist):
         init = (rng.randrange(1, 4), rng.randrange(0, 4), rng.randrange(0, 2))
-        circ = du.new_circuit(*init)
-        toks = []
-        for _ in range(rng.choice([5, 15, 40])):
-            ed = du.gen_edit(rng, circ, malformed=False, allow_measz=False, max_regs=8, label_pool=("mine", "tagA"))
-            toks.append(du.edit_token(ed))
-            if ed[0] == "C":
-                circ = circ.copy()
-            else:
-                du.apply_edit(circ, ed)
-            if rng.random() < 0.3:
-                # a depth query in the middle of the history: its answer is the definition on the circuit as it is now, whatever was
-                # asked before and however the circuit was edited since
-                toks.append("Q/d")
-                got = read_depths(circ)
-                res.count("branches", "history:query-between-edits")
-                if got is not None:
-                    regd_now = ref_metrics(circ)[1]
-                    res.evaluations += 1
-                    if got != regd_now:
-                        report(res, "metric:register_depth:wrong-value", f"register_depth = {got} in the middle of an edit history, ASAP layer of the last operation "
-                               f"per register = {regd_now}", {"ne": init[0], "np": init[1], "nc": init[2], "edits": list(toks)}, "register_depth")
-                        break
-        with_eff = eff_cost_ok(circ)
-        q = "m" if with_eff else "n"
-        mtoks = no_q(toks)
-        rep = drv.ask(f"dag.run ne={init[0]} np={init[1]} nc={init[2]} edits={du.emp(','.join(mtoks))} qs={','.join(['*'] * (len(mtoks) - 1) + [q])}")
-        inp = {"ne": init[0], "np": init[1], "nc": init[2], "edits": toks}
-        if rep["_status"] != "ok":
-            res.exact_break("dag.run:reply", input=inp, impl="ok", model=rep["_raw"][:200])
+        g = impl_guard(res, "history", promise=True, input={"ne": init[0], "np": init[1], "nc": init[2]})
+        with g:
+            circ = history_case(res, drv, rng, init)
+        if g.raised is not None:
             continue
-        model_m = rep["q"].split(",")[-1].split(":", 1)[1]
-        check_circuit(res, circ, rng, inp, model_m)
-        res.nontrivial(init, tuple(toks))
-        res.count("sizes", "history")
         if res.violations:
             break
     res.extra["driver_lines"] = drv.n_lines
@@ -410,6 +523,58 @@ def run(ctx):
         res.notes.append(f"model driver restarted {drv.restarts}x (request re-sent)")
     drv.close()
     return res
+
+
+def history_case(res, drv, rng, init):
+    """one circuit reached by an arbitrary edit history (with depth queries between the edits): definitions, model, error classes"""
+    circ = du.new_circuit(*init)
+    toks = []
+    errs = []
+    for _ in range(rng.choice([5, 15, 40])):
+        ed = du.gen_edit(rng, circ, malformed=False, allow_measz=False, max_regs=8, label_pool=("mine", "tagA"))
+        toks.append(du.edit_token(ed))
+        if ed[0] == "C":
+            circ = circ.copy()
+            errs.append("-")
+        else:
+            errs.append(du.apply_edit(circ, ed) or "-")
+        if rng.random() < 0.3:
+            # a depth query in the middle of the history: its answer is the definition on the circuit as it is now, whatever was
+            # asked before and however the circuit was edited since
+            toks.append("Q/d")
+            got = read_depths(circ)
+            res.count("branches", "history:query-between-edits")
+            if got is not None:
+                regd_now = ref_metrics(circ)[1]
+                res.evaluations += 1
+                if got != regd_now:
+                    report(res, "metric:register_depth:wrong-value", f"register_depth = {got} in the middle of an edit history, ASAP layer of the last operation "
+                           f"per register = {regd_now}", {"ne": init[0], "np": init[1], "nc": init[2], "edits": list(toks)}, "register_depth")
+                    break
+    if any(e != "-" for e in errs):
+        res.count("errors", "history:edit-raised")
+    with_eff = eff_cost_ok(circ)
+    q = ("m" if with_eff else "n") + "+h"
+    mtoks = no_q(toks)
+    rep = drv.ask(f"dag.run ne={init[0]} np={init[1]} nc={init[2]} edits={du.emp(','.join(mtoks))} qs={','.join(['*'] * (len(mtoks) - 1) + [q])}")
+    inp = {"ne": init[0], "np": init[1], "nc": init[2], "edits": toks}
+    if rep["_status"] != "ok":
+        res.exact_break("dag.run:reply", input=inp, impl="ok", model=rep["_raw"][:200])
+        return circ
+    # the return value of every edit used to be dropped: an edit that raises in the implementation but not in the model (or with
+    # another class) leaves two different circuits behind; it is reported as such, not only through the metrics that may differ
+    m_errs = [] if rep.get("errs", "*") == "*" else rep["errs"].split(",")
+    if m_errs != errs:
+        k = next((i for i, (a, b) in enumerate(zip(errs, m_errs)) if a != b), min(len(errs), len(m_errs)))
+        res.exact_break("dag.run:edit-error-class", input=inp, step=k, impl=errs[k] if k < len(errs) else None, model=m_errs[k] if k < len(m_errs) else None)
+        return circ
+    model_m = rep["q"].split(",")[-1].split("+")[0].split(":", 1)[1]
+    check_circuit(res, circ, rng, inp, model_m)
+    if not res.violations:
+        check_theorem_on_history(res, drv, circ, inp, rep, model_m)
+    res.nontrivial(init, tuple(toks))
+    res.count("sizes", "history")
+    return circ
 
 
 def search(ctx, res, proof_broken):
